@@ -1,5 +1,6 @@
 """C20 - linked object code is placed once, its calls bound to the final addresses (DESIGN 4, C20)."""
 from vlib import Group
+from shared_groups import tokens_get_group
 
 CH = ["--bounds-check", "--pointer-check", "--signed-overflow-check"]
 GROUPS = [
@@ -17,6 +18,8 @@ GROUPS = [
     Group(name="C20/lookup_by_name[bounded]", unity="C20/u_obj.cpp", entry="h_lookup_by_name", functions=[("imports_obj_symbol_table_lookup_by_name", "core/imports_obj.cpp", "harness, bounded")],
           unwind=34, checks=CH[:2], timeout=900, bounded="two symbol table entries of the same name (undefined reference, then definition); values symbolic"),
 ]
+# symbol discovery: the tokenizer contract carries "imported code is searched only for names that are used" (C20.discover)
+GROUPS.append(tokens_get_group("thorough"))
 LEVEL = "other"
 EXPLANATION = ("Contract proof (DFCC loop contract, unbounded function size, witness word) of the relocation step link_function_mips and of the byte-order helpers; "
                "the ELF32/ar parsers, Linker symbol discovery ('placed exactly once', 'unreferenced functions not included') and AsmContext::link are not under contract, "
